@@ -64,7 +64,7 @@ fn shape_for(i: u64, rng: &mut Rng) -> Shape {
     // Lagrange kernel column, auxiliary segment narrower than / as wide as the main segment
     if i % 6 == 0 {
         let w = sh.width();
-        sh.aux = Some(AuxShape { cols: (i as usize / 6) % w.max(1), rands: 1, lagrange: true });
+        sh.aux = Some(AuxShape { cols: 1 + (i as usize / 6) % w.max(1), rands: 1, lagrange: true });
         sh.exemptions = sh.exemptions.min(sh.max_exemptions()).max(1);
     }
     // more auxiliary than main transition constraints; every second time also more auxiliary than
@@ -118,8 +118,14 @@ fn case(i: u64, rng: &mut Rng, st: &mut State, full: bool) {
     let honest = Instance { fd, hs, shape: shape.clone(), options: options.clone(), cols: cols.clone(), values: values.clone() };
     let honest_proof = match stark::prove(&honest, false) {
         Proved::Ok(p) => p,
-        _ => {
+        Proved::Err(e) => {
             st.count("skipped.honest_prove_failed(C01)");
+            st.count(&format!("skipped.honest_prove_failed(C01).{}", wfv::report::truncate(&e, 60)));
+            return;
+        },
+        Proved::Panic(pi) => {
+            st.count("skipped.honest_prove_failed(C01)");
+            st.count(&format!("skipped.honest_prove_failed(C01).panic:{}", wfv::report::truncate(&pi.sig, 80)));
             return;
         },
     };
@@ -158,6 +164,16 @@ fn case(i: u64, rng: &mut Rng, st: &mut State, full: bool) {
         let mut bad = cols.clone();
         bad[c][s] = wfv::refmath::Fp { p }.add(bad[c][s], delta % p);
         let verdict = stark::validity(fd, &shape, &bad, &values);
+        // the library's own executable definition of validity (Trace::validate, what the prover runs in debug
+        // builds) must draw the same line as the reference predicate
+        let lib = stark::library_validate(fd, &shape, &options, &bad, &values);
+        if lib.is_ok() != verdict.is_ok() {
+            st.violation(
+                format!("validity-definitions-disagree:{}", if lib.is_ok() { "Trace::validate-accepts-invalid-trace" } else { "Trace::validate-refuses-valid-trace" }),
+                describe(c, s, "Trace::validate and the reference validity predicate disagree", format!("reference: {verdict:?}; Trace::validate: {lib:?}")),
+            );
+        }
+        st.count("validity.cross_checked_with_Trace::validate");
         let inst = Instance { fd, hs, shape: shape.clone(), options: options.clone(), cols: bad, values: values.clone() };
         st.evals += 1;
         st.distinct.insert(wfv::fnv(format!("{fd:?}{hs:?}{i}:{c}:{s}:{delta}").as_bytes()));
